@@ -1,15 +1,58 @@
-(* C10: Votor with u64 slot arithmetic (Model/Node64.v): exactly one more way to panic - try_skip_window
-   on the last leader window of the u64 range - and none for slots below it. *)
+(* C10: Votor with u64 slot arithmetic (Model/Node64.v).
+   Current tree: no u64 overflow is reachable - votor_step64 is votor_step, every slot try_skip_window touches fits
+   u64 for every u64 input, so Votor never panics for any event sequence whose ParentReady events name window starts,
+   including every slot up to 2^64-1.
+   Pinned tree: exactly one more way to panic - try_skip_window on the last leader window of the u64 range. *)
 From Coq Require Import List NArith ZArith Bool Lia ZifyBool ZifyN.
-From AG Require Import Gen.Params Model.Pool Model.Votor Model.Node64 Proofs.NoPanicVotor.
+From AG Require Import Gen.Params Model.Pool Model.Votor Model.Node64 Proofs.NoPanicBlockstore Proofs.NoPanicVotor.
 Import ListNotations.
 Open Scope N_scope.
 
-Theorem votor_step64_agrees : forall own t i,
-  (forall s, skip_window_target t i = Some s -> window_overflows s = false) ->
-  votor_step64 own t i = votor_step own t i.
+(* ---------------- current tree ---------------- *)
+Theorem votor_step64_is_votor_step : forall own t i, votor_step64 own t i = votor_step own t i.
 Proof.
-  intros own t i H. unfold votor_step64. destruct (vt_panicked t) eqn:P; [unfold votor_step; rewrite P; reflexivity|].
+  intros own t i. unfold votor_step64, votor_step64_gen. destruct (vt_panicked t) eqn:P; [unfold votor_step; rewrite P; reflexivity|].
+  destruct (skip_window_target t i); reflexivity.
+Qed.
+
+(* the slots the fixed Slot::slots_in_window yields (start + 0 .. start + SLOTS_PER_WINDOW - 1) fit u64 for every u64 slot *)
+Module U64Arith.
+  Ltac Zify.zify_post_hook ::= Z.div_mod_to_equations.
+  Lemma window_slots_fit_u64 s s' : s <= U64_MAX -> In s' (seqN (window_first s) (N.to_nat SLOTS_PER_WINDOW)) -> s' <= U64_MAX.
+  Proof.
+    intros Hs Hin. apply seqN_in in Hin. unfold window_first, U64_MAX in *. change SLOTS_PER_WINDOW with 4 in *.
+    change (N.of_nat (N.to_nat 4)) with 4 in Hin. lia.
+  Qed.
+  Lemma window_first_fits s : s <= U64_MAX -> window_first s <= U64_MAX.
+  Proof. intros Hs. unfold window_first, U64_MAX in *. change SLOTS_PER_WINDOW with 4. lia. Qed.
+End U64Arith.
+Export U64Arith.
+
+Definition votor_run64 (own : vidx) (ins : list vin) : votor :=
+  fold_left (fun t i => fst (fst (votor_step64 own t i))) ins votor_init.
+
+Lemma votor_run64_is_votor_run own ins : votor_run64 own ins = votor_run own ins.
+Proof.
+  unfold votor_run64, votor_run. generalize votor_init. induction ins as [|i ins IH]; intros t; cbn [fold_left]; [reflexivity|].
+  rewrite votor_step64_is_votor_step. apply IH.
+Qed.
+
+(* every event sequence - any slots up to 2^64-1 - whose ParentReady events name window starts *)
+Theorem votor64_never_panics : forall own ins,
+  forallb parent_ready_on_window_start ins = true ->
+  vt_panicked (votor_run64 own ins) = false.
+Proof. intros own ins H. rewrite votor_run64_is_votor_run. apply votor_never_panics, H. Qed.
+
+Theorem votor_step64_panics_iff : forall own t i, vinv t -> vt_panicked t = false ->
+  snd (votor_step64 own t i) = bad_parent_ready t i.
+Proof. intros own t i I P. rewrite votor_step64_is_votor_step. apply (votor_step_panics_iff own t i I P). Qed.
+
+(* ---------------- pinned tree ---------------- *)
+Theorem votor_step64_pinned_agrees : forall own t i,
+  (forall s, skip_window_target t i = Some s -> window_overflows s = false) ->
+  votor_step64_pinned own t i = votor_step own t i.
+Proof.
+  intros own t i H. unfold votor_step64_pinned, votor_step64_gen. destruct (vt_panicked t) eqn:P; [unfold votor_step; rewrite P; reflexivity|].
   destruct (skip_window_target t i) as [s|]; [|reflexivity]. rewrite (H s eq_refl). reflexivity.
 Qed.
 
@@ -22,42 +65,42 @@ Proof.
   - destruct (v_old t s'); [discriminate|]. destruct (_ && _); [|discriminate]. intros H; injection H as <-; reflexivity.
 Qed.
 
-(* slots of every window below the last one are safe *)
 Definition below_last_window (i : vin) : bool := negb (window_overflows (vin_slot i)).
+Definition votor_run64_pinned (own : vidx) (ins : list vin) : votor :=
+  fold_left (fun t i => fst (fst (votor_step64_pinned own t i))) ins votor_init.
 
-Definition votor_run64 (own : vidx) (ins : list vin) : votor :=
-  fold_left (fun t i => fst (fst (votor_step64 own t i))) ins votor_init.
-
-Theorem votor64_never_panics_below_last_window : forall own ins,
+Theorem votor64_pinned_never_panics_below_last_window : forall own ins,
   forallb parent_ready_on_window_start ins = true -> forallb below_last_window ins = true ->
-  vt_panicked (votor_run64 own ins) = false.
+  vt_panicked (votor_run64_pinned own ins) = false.
 Proof.
   intros own ins H1 H2.
-  assert (E : votor_run64 own ins = votor_run own ins).
-  { unfold votor_run64, votor_run. generalize votor_init. induction ins as [|i ins IH]; intros t; cbn [fold_left]; [reflexivity|].
+  assert (E : votor_run64_pinned own ins = votor_run own ins).
+  { unfold votor_run64_pinned, votor_run. generalize votor_init. induction ins as [|i ins IH]; intros t; cbn [fold_left]; [reflexivity|].
     cbn [forallb] in H1, H2. apply andb_true_iff in H1. apply andb_true_iff in H2. destruct H1 as [_ H1]. destruct H2 as [Hi H2].
-    rewrite votor_step64_agrees.
+    rewrite votor_step64_pinned_agrees.
     - apply IH; assumption.
     - intros s Hs. apply target_slot in Hs. unfold below_last_window in Hi. rewrite Hs in Hi. destruct (window_overflows s); [discriminate|reflexivity]. }
   rewrite E. apply votor_never_panics. exact H1.
 Qed.
 
-(* the defect: an InvalidBlock (or timeout) event for a slot of the last u64 window *)
-Theorem votor64_last_window_refuted :
-  snd (votor_step64 0 votor_init (VInvalidBlock U64_MAX)) = true /\
-  snd (votor_step64 0 votor_init (VInvalidBlock (U64_MAX - 3))) = true /\
-  snd (votor_step64 0 votor_init (VInvalidBlock (U64_MAX - 4))) = false.
-Proof. vm_compute. repeat split; reflexivity. Qed.
-
-(* and exactly then: in a reachable, unpanicked state the u64 step panics iff the unbounded step does
-   or try_skip_window is entered for a slot of the last window *)
-Theorem votor_step64_panics_iff : forall own t i, vinv t -> vt_panicked t = false ->
-  snd (votor_step64 own t i) =
+Theorem votor_step64_pinned_panics_iff : forall own t i, vinv t -> vt_panicked t = false ->
+  snd (votor_step64_pinned own t i) =
   (bad_parent_ready t i || match skip_window_target t i with Some s => window_overflows s | None => false end).
 Proof.
-  intros own t i I P. unfold votor_step64. rewrite P.
+  intros own t i I P. unfold votor_step64_pinned, votor_step64_gen. rewrite P.
   destruct (votor_step_panics_iff own t i I P) as [H _].
   destruct (skip_window_target t i) as [s|] eqn:Et.
-  - destruct (window_overflows s); [cbn; rewrite orb_true_r; reflexivity|]. rewrite H, orb_false_r. reflexivity.
+  - cbn [andb]. destruct (window_overflows s); [cbn; rewrite orb_true_r; reflexivity|]. rewrite H, orb_false_r. reflexivity.
   - rewrite H, orb_false_r. reflexivity.
 Qed.
+
+(* the pinned defect: an InvalidBlock (or time-out) event for a slot of the last u64 window; the current tree skips
+   the window (four skip votes, slots 2^64-4 .. 2^64-1) *)
+Theorem votor64_pinned_last_window_refuted :
+  snd (votor_step64_pinned 0 votor_init (VInvalidBlock U64_MAX)) = true /\
+  snd (votor_step64_pinned 0 votor_init (VInvalidBlock (U64_MAX - 3))) = true /\
+  snd (votor_step64_pinned 0 votor_init (VInvalidBlock (U64_MAX - 4))) = false /\
+  snd (votor_step64 0 votor_init (VInvalidBlock U64_MAX)) = false /\
+  snd (fst (votor_step64 0 votor_init (VInvalidBlock U64_MAX))) =
+    map (fun s => VBVote (mkVote s KSkip 0)) [U64_MAX - 3; U64_MAX - 2; U64_MAX - 1; U64_MAX].
+Proof. vm_compute. repeat split; reflexivity. Qed.
